@@ -20,9 +20,12 @@
 
    Bug selects named defects (vacuity guards / regressions):
      "none" | "pitch_sign" | "legacy_threshold" | "thrust_clip" | "goto_order" | "mask_add"
-     | "hl_shared_packet" | "quat_unit_shortcut"
+     | "hl_shared_packet" | "quat_unit_shortcut" | "version_demorgan"
    "mask_add" is the behaviour of the code as found (mask += 1 << bs, wrong for duplicates).
    "hl_shared_packet": HighLevelCommander keeps one CRTPPacket and only replaces its data.
+   "version_demorgan": PlatformService._platform_callback returns early only when the channel is not the
+   version channel AND the first byte is not VERSION_GET_PROTOCOL: every other PLATFORM-port packet with
+   channel 1 or first byte 0 overwrites the stored protocol version.
    "quat_unit_shortcut": compress_quaternion skips the normalisation when the argument's length is
    within 1 % of 1 (the argument records carry u = floor(4096 * length) for this). *)
 EXTENDS Integers, Sequences, FiniteSets, TLC
@@ -31,6 +34,7 @@ CONSTANTS Versions,       \* protocol versions the platform service may report
           Cmds,           \* command names exercised
           ArgSets,        \* [cmd -> set of argument tuples]
           HdrPorts, HdrChans,
+          PlatPackets,    \* other traffic the firmware may send on the PLATFORM port: set of <<channel, data>>
           Links,          \* kinds of link the environment may attach: subset of {"now", "later"}
           Cap,            \* capacity of the "later" link's queue of packet objects (RadioDriver: 1)
           Chained,        \* FALSE: a call starts from the idle state only (model checking: calls do not
@@ -40,6 +44,7 @@ CONSTANTS Versions,       \* protocol versions the platform service may report
 P == INSTANCE CommandsProps
 
 VARIABLES ver,            \* PlatformService._protocolVersion
+          nver,           \* environment / history: the version the firmware answered the protocol-version request with
           xmode,          \* Commander._x_mode
           link,           \* environment: kind of link attached to the Crazyflie
           building,       \* "later" link: the call that has written its packet object and not yet handed it over
@@ -47,7 +52,7 @@ VARIABLES ver,            \* PlatformService._protocolVersion
           heap,           \* packet objects: heap[o + 1] = what object o holds now ([h, data])
           last            \* history: the last emission (record of CommandsProps) or header event
 
-vars == <<ver, xmode, link, building, pend, heap, last>>
+vars == <<ver, nver, xmode, link, building, pend, heap, last>>
 envvars == <<link, building, pend, heap>>
 
 None == [kind |-> "none"]
@@ -255,18 +260,34 @@ Modelled(cmd, x, a) == /\ (cmd = "setpoint" /\ x) => (a[1].hasg /\ a[2].hasg)
                        /\ cmd = "full_state" => \A i \in {1, 2, 3, 4, 5, 6, 7, 8, 9, 14, 15, 16} : MilliSane(a[i])
 
 \* ------------------------------------------------------------------ actions
-Init == /\ ver = -1 /\ xmode = FALSE /\ last = None
+Init == /\ ver = -1 /\ nver = -1 /\ xmode = FALSE /\ last = None
         /\ link = "now" /\ building = NoCall /\ pend = <<>> /\ heap = [i \in 1..(Cap + 2) |-> NoPk]
 
 \* PlatformService._platform_callback stores the version byte reported by the firmware
-SetVersion(v) == Idle /\ ver' = v /\ UNCHANGED xmode /\ last' = None /\ UNCHANGED envvars
+\* (the firmware's answer: PLATFORM port, channel 1 = VERSION_COMMAND, data (VERSION_GET_PROTOCOL = 0, v); v = -1:
+\* the link-service answer of a firmware without protocol versioning)
+SetVersion(v) == Idle /\ ver' = v /\ nver' = v /\ UNCHANGED xmode /\ last' = None /\ UNCHANGED envvars
+\* environment: any other packet on the PLATFORM port reaches _platform_callback too (echo of
+\* set_continous_wave: channel 0, data (0, enabled); arming / crash-recovery answers: channel 0, first byte 1 / 2;
+\* firmware-version answer: channel 1, first byte 1; app-channel data: channel 2, anything).  d = the data bytes.
+\* data[0] / data[1] of a shorter packet raise IndexError inside the callback (the dispatcher logs it): nothing stored.
+\* A well-formed protocol-version answer among them (channel 1, first byte 0, two bytes) IS a negotiation.
+IsVersionAnswer(ch, d) == ch = 1 /\ Len(d) >= 2 /\ d[1] = 0
+PlatformPacket(ch, d) ==
+    /\ Idle
+    /\ LET takes == IF Bug = "version_demorgan" THEN ch = 1 \/ (Len(d) >= 1 /\ d[1] = 0)
+                    ELSE ch = 1 /\ Len(d) >= 1 /\ d[1] = 0
+       IN ver' = IF takes /\ Len(d) >= 2 THEN d[2] ELSE ver
+    /\ nver' = IF IsVersionAnswer(ch, d) THEN d[2] ELSE nver
+    /\ last' = None /\ UNCHANGED xmode /\ UNCHANGED envvars
 \* Commander.set_client_xmode
-SetXMode(b) == Idle /\ xmode' = b /\ UNCHANGED ver /\ last' = None /\ UNCHANGED envvars
+SetXMode(b) == Idle /\ xmode' = b /\ UNCHANGED <<ver, nver>> /\ last' = None /\ UNCHANGED envvars
 \* environment: another kind of link is attached (between connections: nothing is queued)
 SetLink(m) == /\ Idle /\ pend = <<>> /\ m # link
-              /\ link' = m /\ last' = None /\ UNCHANGED <<ver, xmode, building, pend, heap>>
+              /\ link' = m /\ last' = None /\ UNCHANGED <<ver, nver, xmode, building, pend, heap>>
 
-EmRec(kind, cmd, a, out, pks) == [kind |-> kind, cmd |-> cmd, ver |-> ver, xmode |-> xmode, args |-> a,
+\* the emission is judged under the NEGOTIATED version (nver); the encoders look at the stored one (ver)
+EmRec(kind, cmd, a, out, pks) == [kind |-> kind, cmd |-> cmd, ver |-> nver, xmode |-> xmode, args |-> a,
                                   out |-> out, pks |-> pks]
 
 \* a call on a link that serialises inside send_packet
@@ -275,7 +296,7 @@ Call(cmd, a) ==
     /\ Chained \/ last = None
     /\ Modelled(cmd, xmode, a)
     /\ LET r == Encode(cmd, ver, xmode, a) IN last' = EmRec("cmd", cmd, a, r.out, r.pks)
-    /\ UNCHANGED <<ver, xmode>> /\ UNCHANGED envvars
+    /\ UNCHANGED <<ver, nver, xmode>> /\ UNCHANGED envvars
 
 \* ---- a link that keeps the packet object ("later")
 HLCmds == {"hl_takeoff", "hl_land", "hl_stop", "hl_group_mask", "hl_goto", "hl_spiral", "hl_start_traj",
@@ -295,12 +316,12 @@ Build(cmd, a) ==
             /\ heap' = [heap EXCEPT ![o + 1] = r.pks[1]]
             /\ building' = [call |-> EmRec("cmd", cmd, a, r.out, <<>>), obj |-> o]
             /\ last' = None
-    /\ UNCHANGED <<ver, xmode, link, pend>>
+    /\ UNCHANGED <<ver, nver, xmode, link, pend>>
 \* caller, step 2: link.send_packet(pk) = out_queue.put(pk): waits while the queue is full
 Hand == /\ ~Idle /\ Len(pend) < Cap
         /\ pend' = Append(pend, building) /\ building' = NoCall
         /\ last' = [building.call EXCEPT !.kind = "queued"]
-        /\ UNCHANGED <<ver, xmode, link, heap>>
+        /\ UNCHANGED <<ver, nver, xmode, link, heap>>
 \* link thread: takes the oldest object and serialises what it holds NOW: this is the emission of that call
 Ser == /\ pend # <<>>
        /\ Chained \/ last = None
@@ -310,7 +331,7 @@ Ser == /\ pend # <<>>
        /\ LET o == pend[1].obj IN
           heap' = IF building.obj = o \/ (\E i \in 2..Len(pend) : pend[i].obj = o) \/ o = 0 THEN heap
                   ELSE [heap EXCEPT ![o + 1] = NoPk]
-       /\ UNCHANGED <<ver, xmode, link, building>>
+       /\ UNCHANGED <<ver, nver, xmode, link, building>>
 \* Build and Hand in one step (the trace events have this grain; not part of Next)
 CallLater(cmd, a) ==
     /\ link = "later" /\ Idle
@@ -323,18 +344,19 @@ CallLater(cmd, a) ==
             /\ heap' = [heap EXCEPT ![o + 1] = r.pks[1]]
             /\ pend' = Append(pend, [call |-> EmRec("cmd", cmd, a, r.out, <<>>), obj |-> o])
             /\ last' = EmRec("queued", cmd, a, r.out, <<>>)
-    /\ UNCHANGED <<ver, xmode, link, building>>
+    /\ UNCHANGED <<ver, nver, xmode, link, building>>
 
 \* CRTPPacket: port/channel setters -> header byte
 MakeHeader(p, c) == /\ Idle
                     /\ Chained \/ last = None
                     /\ last' = [kind |-> "hdr", port |-> p, chan |-> c, h |-> Header(p, c)]
-                    /\ UNCHANGED <<ver, xmode>> /\ UNCHANGED envvars
+                    /\ UNCHANGED <<ver, nver, xmode>> /\ UNCHANGED envvars
 
-Return == last # None /\ last' = None /\ UNCHANGED <<ver, xmode>> /\ UNCHANGED envvars
+Return == last # None /\ last' = None /\ UNCHANGED <<ver, nver, xmode>> /\ UNCHANGED envvars
 
 Next == \/ Return
         \/ \E v \in Versions : SetVersion(v)
+        \/ \E p \in PlatPackets : PlatformPacket(p[1], p[2])
         \/ \E b \in BOOLEAN : SetXMode(b)
         \/ \E m \in Links : SetLink(m)
         \/ \E c \in Cmds : \E a \in ArgSets[c] : Call(c, a) \/ Build(c, a)
@@ -355,6 +377,8 @@ RepresentableIsSent == last.kind \in {"cmd", "queued"} =>
     LET lay == P!Layout(last.cmd, last.ver, last.xmode) IN
     (lay.ok /\ (\A i \in DOMAIN lay.f : P!CanEncode(lay.f[i], last.args))
             /\ P!TotalWidth(lay.f, last.args) <= 30) => last.out = "sent"
+\* design-level: other PLATFORM traffic never changes the stored version
+VersionKept == ver = nver
 TypeOK == /\ ver \in Versions \cup {-1} /\ xmode \in BOOLEAN /\ last.kind \in {"none", "cmd", "queued", "hdr"}
           /\ link \in Links \cup {"now"} /\ Len(pend) <= Cap /\ building.obj \in -1..(Cap + 1)
           /\ (link = "now" => pend = <<>> /\ Idle)
